@@ -44,6 +44,12 @@ def run_gen(job):
 
 
 def run_traj(job):
+    if job.get("_env") is not None:
+        return _traj(job, job["_env"])
+    return _traj(job, None)
+
+
+def _traj(job, env0):
     import nasim
     from nasim.envs import NASimEnv
     from harness import gen
@@ -52,7 +58,9 @@ def run_traj(job):
                                                job["scenario"][1] + ".yaml"))
     else:
         scn, _ = gen.generate(job["scenario"][1], bound=200000)
-    env = NASimEnv(scn, fully_obs=job.get("fo", False), flat_actions=True, flat_obs=True)
+    env = env0 or NASimEnv(scn, fully_obs=job.get("fo", False), flat_actions=True, flat_obs=True)
+    if job.get("reuse"):
+        job["_env"] = env          # the same environment object serves every repetition of this key
     np.random.seed(job["seed"])
     rng = random.Random(job["seed"])
     h = hashlib.sha256()
